@@ -241,6 +241,54 @@ MIXED = [None, 0, "", (1,), 2.5]  # falsy / None / tuple / float labels
 BIG = [1000, "node-b", (1, (2, 3)), 2.5, -1000]  # labels of which equal copies are distinct objects (see vf.combi.fresh)
 
 
+def _multi3_chunk(params, lo, hi):
+    """3 nodes as a multigraph: 0..8 self loops on node 0, 0..2 on node 1, and for each of the three pairs every subset of
+    parallel edges with weights {1,2,3}: many queue entries per node (the frontier outgrows any small multiple of n).
+    index = ((m0*3 + m1)*8 + s01)*64 + s02*8 + s12"""
+    subsets = [tuple(w for w in (3, 1, 2) if m >> (w - 1) & 1) for m in range(8)]
+    r = new_result()
+    for idx in range(lo, hi):
+        s12 = subsets[idx % 8]
+        s02 = subsets[idx // 8 % 8]
+        s01 = subsets[idx // 64 % 8]
+        m1 = idx // 512 % 3
+        m0 = idx // 1536
+        edges = [(0, 0, 1)] * m0 + [(1, 1, 1)] * m1 + [(0, 1, w) for w in s01] + [(0, 2, w) for w in s02] + [(1, 2, w) for w in s12]
+        run_graph(r, 3, edges, kruskal_orders=False)
+        if len(r["violations"]) >= 40 or too_many_hangs():
+            r["capped"] = True
+            break
+    return r
+
+
+def _multi14_chunk(params, lo, hi):
+    """3 nodes, 14 edges: five parallel edges 0-1, five 0-2, four 1-2, every weight assignment over {1,2,3}; prim from node 0
+    holds up to 13 queue entries at once. index = base-3 code of the 14 weights"""
+    r = new_result()
+    shape = [(0, 1)] * 5 + [(0, 2)] * 5 + [(1, 2)] * 4
+    for idx in range(lo, hi):
+        ws = digits(idx, 3, 14)
+        edges = [(u, v, 1 + w) for (u, v), w in zip(shape, ws)]
+        errs, label, nt = judge_prim(3, edges, 0, None)
+        r["n"] += 1
+        r["outcomes"]["prim14:" + label] += 1
+        if nt:
+            r["nontrivial"] += 1
+        for kind, detail in errs:
+            wit = {"n": 3, "edges": [list(e) for e in edges], "function": "prim", "start": 0, "labels": None}
+            r["violations"].append(viol("prim", kind, wit, f"prim(symmetric adjacency of {edges} on 3 nodes, start=0): {detail}"))
+        if not r["samples"]:
+            r["samples"].append({"n": 3, "edges": [list(e) for e in edges]})
+        if len(r["violations"]) >= 40 or too_many_hangs():
+            r["capped"] = True
+            break
+    return r
+
+
+def _multi14_block(params, lo, hi):
+    return _multi14_chunk(None, params + lo, params + hi)
+
+
 K8_PAIRS = [(0, 1), (2, 3), (4, 5), (6, 7), (1, 3), (5, 7), (3, 7), (0, 6), (2, 5), (6, 1)]
 
 
@@ -281,15 +329,19 @@ def jobs(tier, seed):
     js.append(Job(f"n8_ordered_lists_of_{k8}_of_10_pairs", math.perm(len(K8_PAIRS), k8), _k8_chunk, k8, describe=f"kruskal(8, ...) on every ordered list of {k8} distinct pairs out of {K8_PAIRS}, weight = list position"))
     for n in (1, 2, 3, 4):
         js.append(Job(f"n{n}_over_absent-1012", 5 ** len(_pairs(n)), _simple_chunk, (n, A5, STR), describe="all graphs, per-pair weight in {absent,-1,0,1,2}; odd indices use string labels (every 4th: None/falsy/tuple/float labels) for prim"))
+    js.append(Job("n3_multigraph_many_parallel", 9 * 3 * 512, _multi3_chunk, None, describe="3 nodes, up to 8+2 self loops and up to 3 parallel edges per pair with weights {1,2,3}"))
     js.append(Job("n3_selfloops", 125 * 27, _loops_chunk, None, describe="3 nodes with optional self loops of weight -1/1"))
     for L in (1, 2, 3, 4):
         js.append(Job(f"n3_edgelists_len{L}", 18**L, _dup_chunk, (3, L, (1, 2, 5)), describe="ordered edge lists with duplicate/anti-parallel edges, weights {1,2,5}"))
     for L in (1, 2, 3):
         js.append(Job(f"n4_edgelists_len{L}", 24**L, _dup_chunk, (4, L, (1, 2)), describe="ordered edge lists on 4 nodes, weights {1,2}"))
     if tier == "thorough":
+        js.append(Job("n3_14_parallel_edges", 3**14, _multi14_chunk, None, describe="3 nodes, 5+5+4 parallel edges, every weight assignment over {1,2,3}, prim from node 0 (13 queue entries at once)"))
         js.append(Job("n5_over_absent012", 4**10, _simple_chunk, (5, (None, 0, 1, 2), STR), describe="all graphs on 5 nodes over {absent,0,1,2}"))
         js.append(Job("n4_edgelists_len4", 24**4, _dup_chunk, (4, 4, (1, 2)), describe="ordered edge lists on 4 nodes, 4 edges"))
     else:
+        b = seed % 32
+        js.append(Job(f"n3_14_parallel_edges_block{b}of32", 3**14 // 32, _multi14_block, b * (3**14 // 32), describe="rotating 1/32 block (VERIF_SEED) of: 3 nodes, 5+5+4 parallel edges, every weight assignment over {1,2,3}, prim from node 0"))
         js.append(Job("n5_over_absent12", 3**10, _simple_chunk, (5, (None, 1, 2), STR), describe="all graphs on 5 nodes over {absent,1,2}"))
     return js
 
